@@ -25,7 +25,7 @@ def sh(cmd, cwd=None, env=None, timeout=7200):
 
 
 def lane(k, q, out):
-    copy = "/tmp/vlane%d" % k
+    copy = "/tmp/vlane%d" % (k + BASE)
     sh("rsync -a --delete --exclude .git --exclude _work --exclude 'replays/*' %s/ %s/" % (VERIF, copy))
     while True:
         try:
@@ -56,9 +56,14 @@ def lane(k, q, out):
             print("=== %s alarms: %s" % (job["id"], bad), flush=True)
 
 
+BASE = 0
+
+
 def main():
+    global BASE
     jobs = json.load(open(sys.argv[1]))
     n = int(sys.argv[2]) if len(sys.argv) > 2 else 4
+    BASE = int(sys.argv[3]) if len(sys.argv) > 3 else 0     # first lane number (several drills side by side)
     q = queue.Queue()
     for j in jobs:
         q.put(j)
